@@ -197,6 +197,7 @@ func OpenBucket(urlStr string, bucketName string, mode OpenMode) (b *Bucket, err
 
 	hlc.updateLatestTime(bucket.getLastTimestamp())
 
+	verifPoint("open.beforeregister", bucketName)
 	exists, bucketCopy := registerBucket(bucket)
 	// someone else beat registered the bucket in the registry, that's OK we'll close ours
 	if exists {
@@ -353,11 +354,16 @@ func (bucket *Bucket) inTransaction(fn func(txn *sql.Tx) error) error {
 		if err != nil {
 			break
 		}
+		verifPoint("txn.begin")
 
 		err = fn(txn)
 
 		if err == nil {
+			verifPoint("txn.precommit")
 			err = txn.Commit()
+		}
+		if err == nil {
+			verifPoint("txn.committed")
 		}
 
 		if err != nil {
